@@ -13,7 +13,9 @@ func init() {
 	register(&Property{ID: "C10",
 		Jobs: func(tier string) []*Job {
 			return []*Job{f4Job("narrow", "VerifNarrow", 2, []string{"ran"}, []string{"C10-then", "C10-else", "C10-after"},
-				"x = Sym.u (all 12 ordered pairs of distinct kinds out of NilClass/Integer/String/Bool, solver variables) tested by if/unless x [!] x.nil? / is_a?(Integer) / is_a?(String) with then/else/after probes; optionally an unrelated inner conditional or builtin call in the then-branch")}
+				"x = Sym.u (all 12 ordered pairs of distinct kinds out of NilClass/Integer/String/Bool, solver variables) tested by if/unless x [!] x.nil? / is_a?(Integer) / is_a?(String) with then/else/after probes; optionally an unrelated inner conditional or builtin call in the then-branch"),
+				f4Job("chain", "VerifNarrowChain", map[string]int{"quick": 1, "thorough": 2}[tier], []string{"ran"}, []string{"C10-chain-after-x", "C10-chain-later-conditional"},
+					"`if T1 && T2` for all pairs of the test forms nil?/!nil?/is_a?(Integer)/!is_a?(Integer) (thorough: + is_a?(String) forms), both on x = Sym.w (every ordered triple of distinct kinds out of NilClass/Integer/String; thorough + Bool) or on x = Sym.w and y = Sym.u; probes in the branch, after `end`, and in a later conditional on x")}
 		},
 		Custom:    replayKindsProgram,
 		Filter:    func(v *Violation) bool { return strings.HasPrefix(v.ID, "C10") },
